@@ -433,6 +433,15 @@ static void c05_pointee(std::mt19937_64& rng, bool thorough, bool dense)
       }
     }
   }
+  // a pointer in the last bytes of the region whose pointee would extend beyond them: the
+  // arithmetic is about ADDRESSES (p +/- n*s inside the sandbox), also for p[n] / &p[n] on a
+  // non-const pointer
+  if (s > 1) {
+    for (int op = 0; op < 6; op++) {
+      sweep<T, int16_t>(rng, (Op)op, SIZE - 1, 0, false);
+      sweep<T, int32_t>(rng, (Op)op, SIZE - s + 1, 1, false);
+    }
+  }
 }
 
 // ---------------------------------------------------------------- C17
